@@ -86,7 +86,7 @@ def plan(repo, tier, cap=300000, files=None, cap_cells=1 << 23):
                 forms = FORMS_BIG if big else FORMS_SMALL
                 if not isnovel and big:
                     forms = FORMS_BIG[:2]
-                if s > cap:
+                if s > (cap if not isnovel else max(cap, 1 << 20)):
                     forms = ("cells", "rowlen")
                 for form in forms:
                     reps = (3 if isnovel else 1) if big else (6 if isnovel else 2)
